@@ -102,6 +102,9 @@ func (c07) Gen(r *sim.Rand, tier string, run uint64) *sim.Scenario {
 	if r.Chance(1, 25) {
 		sc.Cfg["initfrom"] = 1
 	}
+	if r.Chance(1, 10) {
+		sc.Cfg["cap"] = int64(r.Range(1, 40))
+	}
 	return sc
 }
 
@@ -116,15 +119,24 @@ func (c07) Exec(sc *sim.Scenario, env *sim.Env) *sim.Violation {
 	defer sim.Deactivate()
 	st := env.Stats
 	env.SetWatchdog(40000000)
-	orig := asm.NewEmitter(make([]byte, 256), false)
+	capacity := 256
+	if c := int(sc.C("cap")); c > 0 && c < 256 {
+		capacity = c // a short window into a larger array: the program stops where it no longer fits
+	}
+	tgt, _ := mkTarget(capacity, sc.C("cap") > 0)
+	orig := asm.NewEmitter(tgt, false)
 	e := orig
-	m := newAsmModel(true, 256, false)
+	m := newAsmModel(true, capacity, false)
 	var evs []c07ev
+	var flagsOverride *uint8
 	seenIns := false
 	widthRefusal, lateAssume := false, false
 	for i, op := range sc.Ops {
 		switch op.K {
 		case "clone":
+			if e == orig && sc.C("cap") > 0 {
+				continue // with a short target the block-through-Clone dimension is left to C19/C16
+			}
 			if e == orig {
 				var c *asm.Emitter
 				if p, pv := sim.RecoverLib(func() { c = orig.Clone(make([]byte, 256)) }); p || c == nil {
@@ -132,6 +144,19 @@ func (c07) Exec(sc *sim.Scenario, env *sim.Env) *sim.Violation {
 				}
 				e = c
 				st.Probe("segment_through_clone")
+				// a speculative sibling clone that switches widths and is then discarded must not
+				// reach the emitters in use
+				var sib *asm.Emitter
+				sim.RecoverLib(func() { sib = orig.Clone(make([]byte, 16)) })
+				if sib != nil {
+					sim.RecoverLib(func() {
+						if sib.IsM16bit() {
+							sib.SEP(0x30)
+						} else {
+							sib.REP(0x30)
+						}
+					})
+				}
 			}
 			continue
 		case "append":
@@ -167,9 +192,15 @@ func (c07) Exec(sc *sim.Scenario, env *sim.Env) *sim.Violation {
 			return v
 		}
 		if out.Refused == "cap" {
-			// 256 bytes exhausted: stop the program here (not part of this property)
+			if op.K == "rep" || op.K == "sep" {
+				// a REP/SEP refused for capacity has already updated the tracker (known quirk, not
+				// this property's subject): the widths to expect are those before it
+				f := out.FlagsBefore
+				flagsOverride = &f
+			}
+			// target exhausted: stop the program here (not part of this property)
 			if !panicked {
-				return &sim.Violation{Oracle: "refusal_mismatch", Step: i, Msg: "capacity refusal expected"}
+				return &sim.Violation{Oracle: "refusal_mismatch", Step: i, Msg: fmt.Sprintf("%s does not fit into the %d-byte target (Len=%d) but was accepted", op, capacity, before.Len)}
 			}
 			break
 		}
@@ -239,6 +270,9 @@ func (c07) Exec(sc *sim.Scenario, env *sim.Env) *sim.Violation {
 	}
 	if e.IsX16bit() {
 		wantX = 0
+	}
+	if flagsOverride != nil {
+		wantM, wantX = (*flagsOverride>>5)&1, (*flagsOverride>>4)&1
 	}
 	st.Probe(fmt.Sprintf("end_M%d_X%d", wantM, wantX))
 
